@@ -112,7 +112,9 @@ theorem dis_step (c : Config) (hc : c.fix = true) (s : State) (i : In) (h : Arme
   · simp [step_lrty, hrr, h.lrty, h.fsm]
   · simp [step_fsm, fsmNext, h.fsm, hen]
   · exact rxQuiet_step _ _ _ h.rx hv
-  · intro hg; simp [step_gen, genNext, hg, hgen]
+  · intro hg; rw [step_gen]; split
+    · rfl
+    · simp [genNext, hg, hgen]
 
 theorem dis_run (c : Config) (hc : c.fix = true) (dis : List In) : ∀ (s : State), Armed s →
     (∀ i ∈ dis, DisIn i) → Armed (run c s dis) ∧ (s.gen = .idle → (run c s dis).gen = .idle) := by
@@ -164,6 +166,7 @@ theorem adv_step (c : Config) (a : Nat) (ha : a < 8) (s : State) (log : List (Na
   have hpop : pop s i = false := by simp [pop, qValid, hbf]
   have hnr : resetNow c s i = false := by simp [resetNow, resetCond, hen, hrst]
   have hnf : (c.fix && resetCond s i) = false := by simp [resetCond, hen, hrst]
+  have hab : (c.abort && resetCond s i) = false := by simp [resetCond, hen, hrst]
   have hrx' := rxQuiet_step s.rx i.sink s.expSeq hrx hv
   by_cases hd : done s i = true
   · -- a command completes
@@ -186,8 +189,8 @@ theorem adv_step (c : Config) (a : Nat) (ha : a < 8) (s : State) (log : List (Na
         simp only [cmdStep, hd, if_true, hlog, List.nil_append, List.length_singleton]
         refine ⟨by simp [step_bf, hnr, hacc, hpop, updown, hbf], hrx', ?_, ?_, ?_, by simp, ?_⟩
         · simp [step_lrty, hnr, hrr, hlrty, hf]
-        · intro _; simp [step_gen, genNext, hgc, hrdy]
-        · intro hb; simp [step_gen, genNext, hgc, hrdy] at hb
+        · intro _; simp [step_gen, hab, genNext, hgc, hrdy]
+        · intro hb; simp [step_gen, hab, genNext, hgc, hrdy] at hb
         · intro _
           refine ⟨?_, ?_, ?_, ?_⟩
           · simp [step_acks, hnr, hacc, lgoodDone, hf, hd, updown, q1]
@@ -212,8 +215,8 @@ theorem adv_step (c : Config) (a : Nat) (ha : a < 8) (s : State) (log : List (Na
         simp only [cmdStep, hd, if_true, List.length_append, List.length_singleton] at h5 ⊢
         refine ⟨by simp [step_bf, hnr, hacc, hpop, updown, hbf], hrx', ?_, ?_, ?_, by omega, ?_⟩
         · simp [step_lrty, hnr, hrr, hlrty, hf]
-        · intro _; simp [step_gen, genNext, hgc, hrdy]
-        · intro hb; simp [step_gen, genNext, hgc, hrdy] at hb
+        · intro _; simp [step_gen, hab, genNext, hgc, hrdy]
+        · intro hb; simp [step_gen, hab, genNext, hgc, hrdy] at hb
         · intro _
           refine ⟨?_, ?_, ?_, ?_⟩
           · simp [step_acks, hnr, hacc, lgoodDone, hf, updown, q1]
@@ -258,10 +261,11 @@ theorem adv_step (c : Config) (a : Nat) (ha : a < 8) (s : State) (log : List (Na
         · exact Or.inr hf
         · left; rw [if_neg hf] at hfs; simp only [genSub, genCmd, hfs, hna, hnc]; simp
       rcases hsub with ⟨e1, e2⟩ | hf
-      · rw [e1, e2, step_gCmd, step_gSub]
+      · rw [e1, e2, step_gCmd, step_gSub, hab]
+        simp only [Bool.false_eq_true, if_false]
         by_cases hgi : s.gen = .idle
         · have hgen : generate s = true := by
-            simp only [step_gen, genNext, hgi] at hb; simp only [generate]
+            simp only [step_gen, hab, genNext, hgi, Bool.false_eq_true, if_false] at hb; simp only [generate]
             by_cases hf : s.fsm = .dispatch
             · simp [generate, hf] at hb
             · cases hx : s.fsm <;> simp_all
@@ -277,7 +281,7 @@ theorem adv_step (c : Config) (a : Nat) (ha : a < 8) (s : State) (log : List (Na
         · have hb' : (s.gen == Gen.idle) = false := by cases hx : s.gen <;> simp_all
           simp [hb', hg1 hgi]
       · have := hg0 hf
-        simp [step_gen, genNext, this, generate, hf] at hb
+        simp [step_gen, hab, genNext, this, generate, hf] at hb
     · intro h0
       obtain ⟨q1, q2, q3, q4, q5⟩ := hp0 h0
       refine ⟨by rw [hacks, q1], by rw [hcti, q2], by rw [hnc, q3], by rw [hna, q4], ?_⟩
@@ -339,6 +343,53 @@ theorem dis_expSeq (c : Config) (dis : List In) : ∀ (s : State), RxQuiet s.rx 
     have := ih (step c s i).1 (rxQuiet_step _ _ _ hq hv) (fun j hj => hd j (by simp [hj]))
     simp only [run]; rw [this, h1]
 
+/-! ## The generator has no abort input (second defect) and its repair
+
+As coded the `LinkCommandGenerator` completes a command it has started whenever `source.ready` allows — also
+after the link has gone down and come up again (in the link layer its stream is stalled by the training-set
+stream while the link retrains, so this is the normal course of events when the link goes down mid-command).
+The dispatch FSM cannot tell whose completion it sees: a `done` in SEND_ACKS is taken for the LGOOD
+(`stale_completion_taken_for_lgood`).  So when `enable` rises while the stale command is still in the
+generator, the wire shows the stale command followed by LCRD_A..D and **no sequence number advertisement**
+(`reenable_stale_fails`, confirmed on the gateware).  Repair (`Config.abort`): the generator is reset by
+`link_reset`; then `hidle` of `reenable_readvertises` always holds (`reenable_readvertises_abort`). -/
+
+/-- As coded the dispatch FSM takes *any* completion while it is in SEND_ACKS for the LGOOD: whatever command
+the generator has latched is what goes out, and `acks_to_send` / `next_header_to_ack` advance. -/
+theorem stale_completion_taken_for_lgood (c : Config) (s : State) (i : In) (log : List (Nat × Nat))
+    (hf : s.fsm = .sendAcks) (hg : s.gen = .command) (hr : i.srcReady = true)
+    (hn : resetNow c s i = false) (ha : accept s = false) :
+    cmdStep s i log = log ++ [(s.gCmd, s.gSub)] ∧ (step c s i).1.acks = (s.acks + 7) % 8 ∧
+    (step c s i).1.nextAck = (s.nextAck + 1) % 8 := by
+  have hd : done s i = true := by simp [done, hg, hr]
+  refine ⟨by simp [cmdStep, hd], ?_, ?_⟩
+  · simp [step_acks, hn, ha, lgoodDone, hf, hd, updown]
+  · simp [step_nextAck, hn, lgoodDone, hf, hd]
+
+/-- with the repair the generator is idle in the cycle after every `link_reset` -/
+theorem reset_aborts_generator (c : Config) (ha : c.abort = true) (s : State) (i : In)
+    (hr : resetCond s i = true) : (step c s i).1.gen = .idle := by
+  simp [step_gen, ha, hr]
+
+/-- **C38** (both repairs): `reenable_readvertises` without the hypothesis that the generator has drained —
+whatever command was in flight when the link went down, and however `source.ready` behaves while the link is
+down, the first five commands after the rise of `enable` are LGOOD_(n-1), LCRD_A..D. -/
+theorem reenable_readvertises_abort (c : Config) (hc : c.fix = true) (ha : c.abort = true) (s : State) (i0 : In)
+    (hr : resetCond s i0 = true) (hq : RxQuiet s.rx) (hv : i0.sink.valid = false)
+    (dis en : List In) (hdis : ∀ i ∈ dis, DisIn i) (hen : ∀ i ∈ en, EnIn i) :
+    Fresh (step c s i0).1 ∧
+    (step c s i0).1.expSeq = (if i0.usbReset then 0 else s.expSeq) ∧
+    Armed (run c (step c s i0).1 dis) ∧
+    (run c (step c s i0).1 dis).gen = .idle ∧
+    ∀ k, k < (runLog c (run c (step c s i0).1 dis) [] en).length → k < 5 →
+      (runLog c (run c (step c s i0).1 dis) [] en)[k]? =
+        (expectedCmds (((run c (step c s i0).1 dis).expSeq + 7) % 8))[k]? := by
+  have hidle : (run c (step c s i0).1 dis).gen = .idle :=
+    (dis_run c hc dis _ (reset_makes_fresh c hc s i0 hr hq hv).1.armed hdis).2
+      (reset_aborts_generator c ha s i0 hr)
+  obtain ⟨h1, h2, h3, h4⟩ := reenable_readvertises c hc s i0 hr hq hv dis en hdis hen hidle
+  exact ⟨h1, h2, h3, hidle, h4⟩
+
 /-! ## The defect in the code as found, and non-vacuity -/
 
 def offCyc : In :=
@@ -365,6 +416,33 @@ example :
     let c : Config := { fix := true }
     let s1 := run c (step c midLgood offCyc).1 [offCyc, offCyc]
     s1.gen = .idle ∧ runLog c s1 [] (List.replicate 20 onCyc) = expectedCmds 7 := by
+  refine ⟨by decide, by decide +kernel⟩
+
+
+/-- after the advertisement, a keepalive requested, the generator stalled in its header word -/
+def midKeepalive : State :=
+  { init with acks := 0, cti := 0, nextAck := 0, fsm := .sendKeepalive, gen := .header, gCmd := LUP, gSub := 0,
+              lastEnable := true }
+def stallOff : In := { offCyc with srcReady := false }
+def stallOn : In := { onCyc with srcReady := false }
+
+/-- **Second defect** (first repair only): `enable` falls while the LUP is stalled in the generator and rises
+again before it has been sent: the wire shows LUP, LCRD_A..D — the stale command is taken for the
+advertisement, no LGOOD is sent. -/
+theorem reenable_stale_fails :
+    let c : Config := { fix := true }
+    let s1 := run c (step c midKeepalive stallOff).1 [stallOff, stallOff]
+    resetCond midKeepalive stallOff = true ∧ RxQuiet midKeepalive.rx ∧ s1.gen = .header ∧
+    runLog c s1 [] ([stallOn, stallOn] ++ List.replicate 20 onCyc) =
+      [(LUP, 0), (LCRD, 0), (LCRD, 1), (LCRD, 2), (LCRD, 3)] := by
+  refine ⟨by decide, ⟨by decide, by decide⟩, by decide, by decide +kernel⟩
+
+/-- the same scenario with the generator abort: the stale LUP is dropped, all five commands in order -/
+example :
+    let c : Config := { fix := true, abort := true }
+    let s1 := run c (step c midKeepalive stallOff).1 [stallOff, stallOff]
+    s1.gen = .idle ∧
+    runLog c s1 [] ([stallOn, stallOn] ++ List.replicate 20 onCyc) = expectedCmds 7 := by
   refine ⟨by decide, by decide +kernel⟩
 
 end LunaVerif.HeaderRx
